@@ -14,9 +14,9 @@ ASSUMPTIONS = [
     "CrossHair's models of str.replace / re.sub on symbolic strings are trusted; guarded by concrete re-execution on sampled inputs",
 ]
 CONDITIONS = [
-    X("codec", "c07.py", "h_codec", timeout=400, thorough_timeout=3000, what="unescape_char(escape_char(s)) == norm(s)", bound="all Unicode strings, len <= 3 (thorough 4)"),
-    X("encoded-form", "c07.py", "h_encoded_form", timeout=300, thorough_timeout=2400, what="no raw LF; every ; and , preceded by an odd run of backslashes", bound="all Unicode strings, len <= 3 (thorough 4)"),
-    X("category-codec", "c07.py", "h_category_codec", timeout=400, thorough_timeout=1200, what="list codec with symbolic items (commas, semicolons, backslashes inside items)", bound="1-2 items, all Unicode strings of len <= 2"),
+    X("codec", "c07.py", "h_codec", timeout=400, thorough_timeout=6000, what="unescape_char(escape_char(s)) == norm(s)", bound="all Unicode strings, len <= 3 (thorough 4)"),
+    X("encoded-form", "c07.py", "h_encoded_form", timeout=300, thorough_timeout=4000, what="no raw LF; every ; and , preceded by an odd run of backslashes", bound="all Unicode strings, len <= 3 (thorough 4)"),
+    X("category-codec", "c07.py", "h_category_codec", timeout=400, thorough_timeout=4000, what="list codec with symbolic items (commas, semicolons, backslashes inside items)", bound="1-2 items, all Unicode strings of len <= 2"),
 ] + shards("vtext-class", "c07.py", "h_vtext", {"c0": list(range(14))}, timeout=200,
            what="real vText(s).to_ical()/from_ical (bytes and str input)", bound="critical alphabet, len <= 3, first character pinned per shard"
 ) + shards("as-property", "c07.py", "h_property", {"c0": list(range(14))}, timeout=300, thorough_timeout=1500,
